@@ -126,6 +126,28 @@ class NpProxy:
             return _np.array(a, dtype=object)
         return _np.array(a, dtype=dtype, **kw)
 
+    # -- value-dependent predicates: an uninterpreted condition, both outcomes explored ---------
+    def _pred(self, name, *args):
+        from .sym import decide, Node, TSym, RSym, Sym
+        if not any(_has_sym(a) for a in args):
+            return getattr(_np, name)(*args)
+        cells = []
+        for a in args:
+            arr = _np.asarray(a if not (hasattr(a, "values") and hasattr(a, "index")) else a.values, dtype=object).reshape(-1)
+            cells.extend(arr)
+        if self._cls is TSym:
+            from .sym import t_const
+            return decide(Node("np." + name, *[c.e if isinstance(c, Sym) else t_const(c) for c in cells]))
+        import sympy as sp
+        f = sp.Function("np_" + name)
+        return decide(sp.Eq(f(*[sp.sympify(unwrap(c)) for c in cells]), 1))
+
+    def allclose(self, a, b, *args, **kw):
+        return self._pred("allclose", a, b)
+
+    def array_equal(self, a, b, *args, **kw):
+        return self._pred("array_equal", a, b)
+
     def ascontiguousarray(self, a, dtype=None):
         return _np.ascontiguousarray(_np.asarray(a))
 
